@@ -45,7 +45,7 @@ func DefaultOpts() Opts {
 
 var BaseTime = time.Date(2024, 3, 10, 12, 0, 0, 0, time.UTC)
 
-var wordPool = []string{"alpha", "Bravo7", "char-lie", "delta_x", "e", "Foxtrot!", "golf99", "Hotel", "in dia", "ju", "kilo@example.com", "LIMA", "mike.mike", "n0vember", "oscar?", "é世界", "pa pa", "Quebec1!", "zz", "x"}
+var wordPool = []string{"alpha", "Bravo7", "char-lie", "delta_x", "e", "Foxtrot!", "golf99", "Hotel", "in dia", "ju", "kilo@example.com", "LIMA", "mike.mike", "n0vember", "oscar?", "é世界", "pa pa", "Quebec1!", "zz", "x", "pass٣word", "５ive", "a£b", "se§ion×", "Éclair", "oh yes", "pa$$w0rd$1", "${HOME}/x"}
 
 func Word(r *rng.Rand) string { return wordPool[r.Intn(len(wordPool))] }
 
@@ -97,6 +97,14 @@ func (g *G) nodeOfKind(k spec.Kind, depth int) *spec.Node {
 			n.Elem = g.node(depth + 1)
 		}
 		g.sliceMods(n)
+		if g.O.Coercers && defaultableElem(n.Elem) && g.pct(12) {
+			// a custom coercer on the slice itself: whatever the input is, the items are read from this list
+			mark := []any{n.Elem.Witness}
+			if g.pct(40) {
+				mark = append(mark, n.Elem.Witness)
+			}
+			n.Coercer = &spec.CoercerSpec{Mark: mark}
+		}
 		g.sliceTests(n)
 		g.posts(n)
 	case spec.Struct:
